@@ -24,6 +24,18 @@ PURE_CALLS = {"Iter", "WithOptions", "tuple", "zip", "dict", "EvaluationError"}
 SELF_ATTRS = {"evaluatable", "iterables", "_create_option_set", "_iterate_over_options"}
 
 
+def _alpha(node):
+    """the comprehension with its bound variable renamed to a canonical name (the obligation is about the computation, not the spelling of a local)"""
+    import copy
+    node = copy.deepcopy(node)
+    if isinstance(node, ast.ListComp) and len(node.generators) == 1 and isinstance(node.generators[0].target, ast.Name):
+        old = node.generators[0].target.id
+        for n in ast.walk(node):
+            if isinstance(n, ast.Name) and n.id == old:
+                n.id = "_v"
+    return node
+
+
 def _calls(fn):
     for n in ast.walk(fn):
         if isinstance(n, ast.Call):
@@ -75,8 +87,8 @@ def obligations(repo):
         return [], [("Map._iter", ["Map._iter / _iterate_over_options / _create_option_set not found"])]
     # prelude
     first = ioo.body[1] if isinstance(ioo.body[0], ast.Expr) and isinstance(getattr(ioo.body[0], "value", None), ast.Constant) else ioo.body[0]
-    want = ast.dump(ast.parse(PRELUDE, mode="eval").body)
-    ob("prelude-evaluates-every-iterable-in-order-under-the-given-options", isinstance(first, ast.Assign) and ast.dump(first.value) == want, ast.unparse(first)[:150])
+    want = ast.dump(_alpha(ast.parse(PRELUDE, mode="eval").body))
+    ob("prelude-evaluates-every-iterable-in-order-under-the-given-options", isinstance(first, ast.Assign) and ast.dump(_alpha(first.value)) == want, ast.unparse(first)[:150])
     # frame: uses of `options`
     uses = [n for n in ast.walk(ioo) if isinstance(n, ast.Name) and n.id == "options" and isinstance(n.ctx, ast.Load)]
     inside = [n for n in ast.walk(first) if isinstance(n, ast.Name) and n.id == "options"] if isinstance(first, ast.Assign) else []
